@@ -13,6 +13,9 @@ import Driver.CodecIO
 import Driver.TxnIO
 import Driver.TxnTraceIO
 import Driver.SafeIO
+import Driver.MembershipIO
+import AkVerif.Model.Shutdown
+import AkVerif.Model.GroupSys
 /-!
 Line-protocol driver: one operation per line on stdin, one canonical line per operation on stdout.
 The first token selects the model; unknown or malformed lines print `bad-op` (never a default).
@@ -40,6 +43,8 @@ def dispatch (toks : List String) : Option String :=
   | "c16" :: rest => TxnIO.handle rest
   | "c07" :: rest => TxnTraceIO.handle rest
   | "c10" :: rest => SafeIO.handle rest
+  | "c06" :: rest => MembershipIO.handle rest <|> GroupSys.handle rest
+  | "c19" :: rest => Shutdown.handle rest
   | _ => none
 
 partial def loop (h : IO.FS.Stream) (out : IO.FS.Stream) : IO Unit := do
